@@ -298,6 +298,9 @@ def method_call(eng, node, st, preargs=None):
             src = args[0]
             base.extend(eng.as_seq(src, st))
             return NONE
+        if mname == "clear":
+            base.n = z3.IntVal(0)
+            return NONE
         if mname == "appendleft" and getattr(base, "is_deque", False):
             old, v0 = base.fn, args[0]
             n0 = z3.simplify(base.n)
